@@ -71,7 +71,7 @@ Definition named (nm : name) (f : fieldn) : bool := name_eqb (f_name f) nm.
 (* ------------------------------------------------- unfolding equations ---- *)
 Section Eqs.
   Variable frags : list (name * fragment).
-  Variable impls : list (name * list name).
+  Variable cond : name -> name -> option name -> option name.   (* any type-condition rule *)
 
   Lemma flat_sel_S n s :
     flat_sel frags (S n) s =
@@ -110,36 +110,38 @@ Section Eqs.
   Proof. destruct n; reflexivity. Qed.
 
   Lemma collect_sel_S n st rt s :
-    collect_sel frags impls (S n) st rt s =
+    collect_sel frags cond (S n) st rt s =
     match s with
     | SField a nm args d sub => Ok [mkF a nm args d sub]
     | SSpread nm _ =>
         match assoc nm frags with
         | None => Err E_UNKNOWN_FRAGMENT
         | Some fr =>
-            if applies_concrete impls rt (Some (fr_cond fr)) then collect_list frags impls n rt rt (fr_sels fr)
-            else if applies_static st (Some (fr_cond fr)) then collect_list frags impls n st rt (fr_sels fr)
-            else Ok []
+            match cond st rt (Some (fr_cond fr)) with
+            | Some st' => collect_list frags cond n st' rt (fr_sels fr)
+            | None => Ok []
+            end
         end
     | SInline c _ sub =>
-        if applies_concrete impls rt c then collect_list frags impls n rt rt sub
-        else if applies_static st c then collect_list frags impls n st rt sub
-        else Ok []
+        match cond st rt c with
+        | Some st' => collect_list frags cond n st' rt sub
+        | None => Ok []
+        end
     end.
   Proof. reflexivity. Qed.
   Lemma collect_list_S n st rt x r :
-    collect_list frags impls (S n) st rt (x :: r) =
-    bindo (collect_sel frags impls n st rt x) (fun a =>
-    bindo (collect_list frags impls n st rt r) (fun b => Ok (a ++ b))).
+    collect_list frags cond (S n) st rt (x :: r) =
+    bindo (collect_sel frags cond n st rt x) (fun a =>
+    bindo (collect_list frags cond n st rt r) (fun b => Ok (a ++ b))).
   Proof. reflexivity. Qed.
-  Lemma collect_list_nil n st rt : collect_list frags impls n st rt [] = Ok [].
+  Lemma collect_list_nil n st rt : collect_list frags cond n st rt [] = Ok [].
   Proof. destruct n; reflexivity. Qed.
 
   (* ---- T1: what the executor resolves is a subsequence of the view ------- *)
   Lemma collect_sub_flat n :
-    (forall st rt s c, collect_sel frags impls n st rt s = Ok c ->
+    (forall st rt s c, collect_sel frags cond n st rt s = Ok c ->
        forall m v, flat_sel frags m s = Ok v -> sublist c v) /\
-    (forall st rt l c, collect_list frags impls n st rt l = Ok c ->
+    (forall st rt l c, collect_list frags cond n st rt l = Ok c ->
        forall m v, flat_list frags m l = Ok v -> sublist c v).
   Proof.
     induction n as [|n [IHs IHl]].
@@ -151,11 +153,9 @@ Section Eqs.
         destruct s as [al nm args dirs sub|nm dirs|cd dirs sub].
         * injection H as <-. injection Hv as <-. apply sublist_refl.
         * destruct (assoc nm frags) as [fr|]; [|discriminate].
-          destruct (applies_concrete impls rt (Some (fr_cond fr))); [eapply IHl; eauto|].
-          destruct (applies_static st (Some (fr_cond fr))); [eapply IHl; eauto|].
+          destruct (cond st rt (Some (fr_cond fr))) as [st'|]; [eapply IHl; eauto|].
           injection H as <-. apply sublist_nil_l.
-        * destruct (applies_concrete impls rt cd); [eapply IHl; eauto|].
-          destruct (applies_static st cd); [eapply IHl; eauto|].
+        * destruct (cond st rt cd) as [st'|]; [eapply IHl; eauto|].
           injection H as <-. apply sublist_nil_l.
       + intros st rt [|x r] c H m v Hv.
         * rewrite collect_list_nil in H. injection H as <-. apply sublist_nil_l.
@@ -217,9 +217,9 @@ Section Eqs.
   (* ---- T3: every resolved field is found by the look-ahead ---------------- *)
   (* direct version: no assumption that the selection view terminates *)
   Lemma collect_sub_filter n nm :
-    (forall st rt s c, collect_sel frags impls n st rt s = Ok c ->
+    (forall st rt s c, collect_sel frags cond n st rt s = Ok c ->
        forall m r, filter_sel frags m nm s = Ok r -> sublist (filter (named nm) c) r) /\
-    (forall st rt l c, collect_list frags impls n st rt l = Ok c ->
+    (forall st rt l c, collect_list frags cond n st rt l = Ok c ->
        forall m r, filter_list frags m nm l = Ok r -> sublist (filter (named nm) c) r).
   Proof.
     induction n as [|n [IHs IHl]].
@@ -232,11 +232,9 @@ Section Eqs.
         * injection H as <-. injection Hr as <-. cbn [filter]. unfold named. cbn [f_name].
           destruct (name_eqb fnm nm); apply sublist_refl.
         * destruct (assoc f frags) as [fr|]; [|discriminate].
-          destruct (applies_concrete impls rt (Some (fr_cond fr))); [eapply IHl; eauto|].
-          destruct (applies_static st (Some (fr_cond fr))); [eapply IHl; eauto|].
+          destruct (cond st rt (Some (fr_cond fr))) as [st'|]; [eapply IHl; eauto|].
           injection H as <-. apply sublist_nil_l.
-        * destruct (applies_concrete impls rt cd); [eapply IHl; eauto|].
-          destruct (applies_static st cd); [eapply IHl; eauto|].
+        * destruct (cond st rt cd) as [st'|]; [eapply IHl; eauto|].
           injection H as <-. apply sublist_nil_l.
       + intros st rt [|x r0] c H m r Hr.
         * rewrite collect_list_nil in H. injection H as <-. apply sublist_nil_l.
@@ -263,7 +261,7 @@ Section Eqs.
   Proof. intros H. apply filter_In. split; [exact H|]. unfold named. apply name_eqb_refl. Qed.
 
   Theorem resolved_found_by_lookahead n st rt F c g :
-    collect_list frags impls n st rt (f_sels F) = Ok c -> In g c ->
+    collect_list frags cond n st rt (f_sels F) = Ok c -> In g c ->
     forall m fs r, In F fs -> la_field frags m (f_name g) fs = Ok r ->
     In g r /\ la_exists r = true.
   Proof.
@@ -282,7 +280,7 @@ Section Eqs.
   Inductive rpath : fieldn -> list name -> fieldn -> Prop :=
   | rp_nil F : rpath F [] F
   | rp_step F g h chain n st rt c :
-      collect_list frags impls n st rt (f_sels F) = Ok c -> In g c ->
+      collect_list frags cond n st rt (f_sels F) = Ok c -> In g c ->
       rpath g chain h -> rpath F (f_name g :: chain) h.
 
   Theorem chain_follows_resolution F chain h :
@@ -309,12 +307,16 @@ Section Eqs.
           match assoc nm frags with
           | None => false
           | Some fr =>
-              if applies_concrete impls rt (Some (fr_cond fr)) then all_apply_list n' rt rt (fr_sels fr)
-              else applies_static st (Some (fr_cond fr)) && all_apply_list n' st rt (fr_sels fr)
+              match cond st rt (Some (fr_cond fr)) with
+              | Some st' => all_apply_list n' st' rt (fr_sels fr)
+              | None => false
+              end
           end
       | SInline c _ sub =>
-          if applies_concrete impls rt c then all_apply_list n' rt rt sub
-          else applies_static st c && all_apply_list n' st rt sub
+          match cond st rt c with
+          | Some st' => all_apply_list n' st' rt sub
+          | None => false
+          end
       end
     end
   with all_apply_list (n : nat) (st rt : name) (l : list selection) {struct n} : bool :=
@@ -328,9 +330,9 @@ Section Eqs.
 
   Lemma collect_exact n :
     (forall st rt s, all_apply_sel n st rt s = true ->
-       forall v, flat_sel frags n s = Ok v -> collect_sel frags impls n st rt s = Ok v) /\
+       forall v, flat_sel frags n s = Ok v -> collect_sel frags cond n st rt s = Ok v) /\
     (forall st rt l, all_apply_list n st rt l = true ->
-       forall v, flat_list frags n l = Ok v -> collect_list frags impls n st rt l = Ok v).
+       forall v, flat_list frags n l = Ok v -> collect_list frags cond n st rt l = Ok v).
   Proof.
     induction n as [|n [IHs IHl]].
     - split; [discriminate|]. intros st rt [|x r] H v Hv; [|discriminate]. exact Hv.
@@ -339,10 +341,8 @@ Section Eqs.
         destruct s as [al nm args dirs sub|nm dirs|cd dirs sub]; cbn [all_apply_sel] in H.
         * exact Hv.
         * destruct (assoc nm frags) as [fr|]; [|discriminate].
-          destruct (applies_concrete impls rt (Some (fr_cond fr))); [apply IHl; assumption|].
-          apply andb_true_iff in H. destruct H as [H1 H2]. rewrite H1. apply IHl; assumption.
-        * destruct (applies_concrete impls rt cd); [apply IHl; assumption|].
-          apply andb_true_iff in H. destruct H as [H1 H2]. rewrite H1. apply IHl; assumption.
+          destruct (cond st rt (Some (fr_cond fr))) as [st'|]; [apply IHl; assumption|discriminate].
+        * destruct (cond st rt cd) as [st'|]; [apply IHl; assumption|discriminate].
       + intros st rt [|x r] H v Hv.
         * rewrite flat_list_nil in Hv. rewrite collect_list_nil. exact Hv.
         * cbn [all_apply_list] in H. apply andb_true_iff in H. destruct H as [H1 H2].
@@ -436,7 +436,7 @@ End Args.
 Section PruneP.
   Variable vars : list (name * value).
   Variable frags : list (name * fragment).    (* ORIGINAL fragments *)
-  Variable impls : list (name * list name).
+  Variable cond : name -> name -> option name -> option name.
 
   Lemma prune_sel_field a nm args d sub :
     prune_sel vars (SField a nm args d sub) = SField a nm args (strip d) (prune_list vars sub).
@@ -479,29 +479,31 @@ Section PruneP.
   Proof. destruct n; reflexivity. Qed.
 
   Lemma scollect_sel_S n st rt s :
-    scollect_sel vars frags impls (S n) st rt s =
+    scollect_sel vars frags cond (S n) st rt s =
     match s with
     | SField a nm args d sub => Ok [mkF a nm args d sub]
     | SSpread nm _ =>
         match assoc nm frags with
         | None => Err E_UNKNOWN_FRAGMENT
         | Some fr =>
-            if applies_concrete impls rt (Some (fr_cond fr)) then scollect_list vars frags impls n rt rt (unskipped vars (fr_sels fr))
-            else if applies_static st (Some (fr_cond fr)) then scollect_list vars frags impls n st rt (unskipped vars (fr_sels fr))
-            else Ok []
+            match cond st rt (Some (fr_cond fr)) with
+            | Some st' => scollect_list vars frags cond n st' rt (unskipped vars (fr_sels fr))
+            | None => Ok []
+            end
         end
     | SInline c _ sub =>
-        if applies_concrete impls rt c then scollect_list vars frags impls n rt rt (unskipped vars sub)
-        else if applies_static st c then scollect_list vars frags impls n st rt (unskipped vars sub)
-        else Ok []
+        match cond st rt c with
+        | Some st' => scollect_list vars frags cond n st' rt (unskipped vars sub)
+        | None => Ok []
+        end
     end.
   Proof. reflexivity. Qed.
   Lemma scollect_list_S n st rt x r :
-    scollect_list vars frags impls (S n) st rt (x :: r) =
-    bindo (scollect_sel vars frags impls n st rt x) (fun a =>
-    bindo (scollect_list vars frags impls n st rt r) (fun b => Ok (a ++ b))).
+    scollect_list vars frags cond (S n) st rt (x :: r) =
+    bindo (scollect_sel vars frags cond n st rt x) (fun a =>
+    bindo (scollect_list vars frags cond n st rt r) (fun b => Ok (a ++ b))).
   Proof. reflexivity. Qed.
-  Lemma scollect_list_nil n st rt : scollect_list vars frags impls n st rt [] = Ok [].
+  Lemma scollect_list_nil n st rt : scollect_list vars frags cond n st rt [] = Ok [].
   Proof. destruct n; reflexivity. Qed.
 
   Let frags' := prune_frags vars frags.
@@ -534,10 +536,10 @@ Section PruneP.
 
   (* the same for what the executor collects *)
   Lemma collect_prune n :
-    (forall st rt s, collect_sel frags' impls n st rt (prune_sel vars s) =
-                     omap pf (scollect_sel vars frags impls n st rt s)) /\
-    (forall st rt l, collect_list frags' impls n st rt (map (prune_sel vars) l) =
-                     omap pf (scollect_list vars frags impls n st rt l)).
+    (forall st rt s, collect_sel frags' cond n st rt (prune_sel vars s) =
+                     omap pf (scollect_sel vars frags cond n st rt s)) /\
+    (forall st rt l, collect_list frags' cond n st rt (map (prune_sel vars) l) =
+                     omap pf (scollect_list vars frags cond n st rt l)).
   Proof.
     induction n as [|n [IHs IHl]].
     - split; [reflexivity|]. intros st rt [|x r]; reflexivity.
@@ -548,19 +550,17 @@ Section PruneP.
         * cbn [prune_sel]. rewrite collect_sel_S. unfold frags'. rewrite assoc_prune_frags.
           destruct (assoc nm frags) as [fr|]; cbn [option_map]; [|reflexivity].
           cbn [prune_frag fr_sels fr_cond]. rewrite prune_list_map.
-          destruct (applies_concrete impls rt (Some (fr_cond fr))); [apply IHl|].
-          destruct (applies_static st (Some (fr_cond fr))); [apply IHl|reflexivity].
+          destruct (cond st rt (Some (fr_cond fr))) as [st'|]; [apply IHl|reflexivity].
         * rewrite prune_sel_inline, collect_sel_S, prune_list_map.
-          destruct (applies_concrete impls rt cd); [apply IHl|].
-          destruct (applies_static st cd); [apply IHl|reflexivity].
+          destruct (cond st rt cd) as [st'|]; [apply IHl|reflexivity].
       + intros st rt [|x r].
         * cbn [map]. rewrite collect_list_nil, scollect_list_nil. reflexivity.
         * cbn [map]. rewrite collect_list_S, scollect_list_S, IHs, IHl. apply omap_app.
   Qed.
 
   Theorem collect_commute n st rt l :
-    collect_list frags' impls n st rt (prune_list vars l) =
-    omap pf (scollect_list vars frags impls n st rt (unskipped vars l)).
+    collect_list frags' cond n st rt (prune_list vars l) =
+    omap pf (scollect_list vars frags cond n st rt (unskipped vars l)).
   Proof. rewrite prune_list_map. apply (proj2 (collect_prune n)). Qed.
 
   (* the recursive view recorded by a resolver *)
@@ -634,12 +634,12 @@ Section PruneP.
         * destruct (assoc nm frags) as [fr|] eqn:E; [|injection H as <-; destruct Hf].
           eapply k_spread; [left; reflexivity|exact Hs|exact E|].
           eapply kept_incl; [|eapply IHl; [exact H| |exact Hf]].
-          -- intros y Hy. apply unskipped_in in Hy. tauto.
-          -- intros y Hy. apply unskipped_in in Hy. tauto.
+          -- intros y Hy. apply unskipped_in in Hy. destruct Hy; assumption.
+          -- intros y Hy. apply unskipped_in in Hy. destruct Hy; assumption.
         * eapply k_inline; [left; reflexivity|exact Hs|].
           eapply kept_incl; [|eapply IHl; [exact H| |exact Hf]].
-          -- intros y Hy. apply unskipped_in in Hy. tauto.
-          -- intros y Hy. apply unskipped_in in Hy. tauto.
+          -- intros y Hy. apply unskipped_in in Hy. destruct Hy; assumption.
+          -- intros y Hy. apply unskipped_in in Hy. destruct Hy; assumption.
       + intros [|x r] v H Hall f Hf.
         * rewrite sflat_list_nil in H. injection H as <-. destruct Hf.
         * rewrite sflat_list_S in H. inv_bind H. inv_bind H. injection H as <-.
@@ -660,8 +660,8 @@ Section PruneP.
     exists f. split; [reflexivity|].
     unfold spec_fields in Ha.
     eapply kept_incl; [|eapply (proj2 (sflat_kept n)); [exact Ha| |exact Hf]].
-    - intros y Hy. apply unskipped_in in Hy. tauto.
-    - intros y Hy. apply unskipped_in in Hy. tauto.
+    - intros y Hy. apply unskipped_in in Hy. destruct Hy; assumption.
+    - intros y Hy. apply unskipped_in in Hy. destruct Hy; assumption.
   Qed.
 
   (* conversely every kept field is listed (the pruning removes nothing else) *)
@@ -710,9 +710,9 @@ End PruneP.
    fuel: if add_set collects c beneath F and g is in c, then g is in F's
    selection view, look_ahead().field(name g) exists and contains g, and the
    arguments the view shows for g are the parameters g's resolver is given. *)
-Theorem c22_complete vars vdefs frags impls F n st rt c :
+Theorem c22_complete vars vdefs frags cond F n st rt c :
   let frags' := prune_frags vars frags in
-  collect_list frags' impls n st rt (f_sels F) = Ok c ->
+  collect_list frags' cond n st rt (f_sels F) = Ok c ->
   (forall m v, flat_list frags' m (f_sels F) = Ok v -> sublist c v) /\
   (forall g, In g c ->
      (forall m r, la_field frags' m (f_name g) [F] = Ok r -> In g r /\ la_exists r = true) /\
@@ -720,7 +720,7 @@ Theorem c22_complete vars vdefs frags impls F n st rt c :
         forall nm, param_raw vars vdefs nm (f_args g) = Ok (assoc nm l))).
 Proof.
   intros frags' Hc. split.
-  - intros m v Hv. exact (proj2 (collect_sub_flat frags' impls n) _ _ _ _ Hc _ _ Hv).
+  - intros m v Hv. exact (proj2 (collect_sub_flat frags' cond n) _ _ _ _ Hc _ _ Hv).
   - intros g Hg. split.
     + intros m r Hr. eapply resolved_found_by_lookahead; eauto. left. reflexivity.
     + intros l Hl ND nm. apply view_args_are_params; assumption.
@@ -728,10 +728,10 @@ Qed.
 
 (* the same seen from the ORIGINAL document: what is resolved beneath F and
    what the views list are both images of the unskipped part *)
-Theorem c22_relative_to_pruning vars vdefs frags impls n f :
+Theorem c22_relative_to_pruning vars vdefs frags cond n f :
   view_of vars vdefs (prune_frags vars frags) n (prune_field vars f) = sview_of vars vdefs frags n f /\
-  (forall st rt, collect_list (prune_frags vars frags) impls n st rt (f_sels (prune_field vars f)) =
-                 omap (map (prune_field vars)) (scollect_list vars frags impls n st rt (unskipped vars (f_sels f)))).
+  (forall st rt, collect_list (prune_frags vars frags) cond n st rt (f_sels (prune_field vars f)) =
+                 omap (map (prune_field vars)) (scollect_list vars frags cond n st rt (unskipped vars (f_sels f)))).
 Proof.
   split; [apply view_commute|]. intros st rt. cbn [prune_field f_sels]. apply collect_commute.
 Qed.
@@ -755,7 +755,7 @@ Definition ex_impls : list (name * list name) := [(21%N, [20%N])].
 Lemma c22_nonvacuous :
   let F := prune_field ex_vars ex_field in
   let frags' := prune_frags ex_vars ex_frags in
-  collect_list frags' ex_impls 10 20%N 21%N (f_sels F) = Ok [mkF None 12%N [] [] []] /\
+  collect_list frags' (cond_today ex_impls) 10 20%N 21%N (f_sels F) = Ok [mkF None 12%N [] [] []] /\
   flat_list frags' 10 (f_sels F) = Ok [mkF None 12%N [] [] []; mkF None 13%N [] [] []] /\
   la_field frags' 10 12%N [F] = Ok [mkF None 12%N [] [] []] /\
   la_field frags' 10 11%N [F] = Ok [] /\
@@ -776,6 +776,7 @@ Section ModelTree.
   Variable vars : list (name * value).
   Variable vdefs : list vardef.
   Variable frags : list (name * fragment).
+  Variable cond : name -> name -> option name -> option name.
 
   Section Z.
     Variable n' : nat.
@@ -788,7 +789,7 @@ Section ModelTree.
     Fixpoint zipm (fs : list fieldn) (ch : list tnode) : outcome (list tnode) :=
       match fs with
       | [] => Ok []
-      | c :: fs' => bindo (model_node S vars vdefs frags n' o c (hd dummy_node ch)) (fun t =>
+      | c :: fs' => bindo (model_node S vars vdefs frags cond n' o c (hd dummy_node ch)) (fun t =>
                     bindo (zipm fs' (tl ch)) (fun r => Ok (t :: r)))
       end.
   End Z.
@@ -801,7 +802,7 @@ Section ModelTree.
       match gl with
       | [] => Ok []
       | (o, ch) :: r =>
-          bindo (collect_list frags (ls_impl S) n' (ret_type S cont f) o (f_sels f)) (fun fs =>
+          bindo (collect_list frags cond n' (ret_type S cont f) o (f_sels f)) (fun fs =>
           bindo (zipm n' o (resolvable fs) ch) (fun ch' =>
           bindo (groupsm r) (fun r' => Ok ((o, ch') :: r'))))
       end.
@@ -816,7 +817,7 @@ Section ModelTree.
   Proof. reflexivity. Qed.
 
   Lemma model_node_S n cont f orc :
-    model_node S vars vdefs frags (Datatypes.S n) cont f orc =
+    model_node S vars vdefs frags cond (Datatypes.S n) cont f orc =
     bindo (view_of vars vdefs frags n f) (fun v =>
     bindo (probes_of vars vdefs frags n f (chains S)) (fun pr =>
     bindo (groupsm n cont f (tn_groups orc)) (fun gs =>
@@ -836,7 +837,7 @@ Section ModelTree.
 
   Lemma zipm_in n o fs ch ts t :
     zipm n o fs ch = Ok ts -> In t ts ->
-    exists c orc, In c fs /\ model_node S vars vdefs frags n o c orc = Ok t.
+    exists c orc, In c fs /\ model_node S vars vdefs frags cond n o c orc = Ok t.
   Proof.
     revert ch ts. induction fs as [|c fs IH]; intros ch ts H Ht.
     - injection H as <-. destruct Ht.
@@ -848,7 +849,7 @@ Section ModelTree.
 
   Lemma groupsm_in n cont f gl gs o ch' :
     groupsm n cont f gl = Ok gs -> In (o, ch') gs ->
-    exists fs ch, collect_list frags (ls_impl S) n (ret_type S cont f) o (f_sels f) = Ok fs /\
+    exists fs ch, collect_list frags cond n (ret_type S cont f) o (f_sels f) = Ok fs /\
                   zipm n o (resolvable fs) ch = Ok ch'.
   Proof.
     revert gs. induction gl as [|[o0 ch0] r IH]; intros gs H Hin.
@@ -863,7 +864,7 @@ Section ModelTree.
      every field, every fuel — each resolver invoked beneath a resolver is
      listed, with its complete own view, in that resolver's selection view. *)
   Theorem model_tree_listed n cont f orc t :
-    model_node S vars vdefs frags n cont f orc = Ok t -> tree_listed t.
+    model_node S vars vdefs frags cond n cont f orc = Ok t -> tree_listed t.
   Proof.
     revert cont f orc t. induction n as [|n IH]; intros cont f orc t H; [discriminate|].
     rewrite model_node_S in H. inv_bind H. inv_bind H. inv_bind H. injection H as <-.
@@ -876,7 +877,7 @@ Section ModelTree.
     rewrite model_node_S in Hm. inv_bind Hm. inv_bind Hm. inv_bind Hm. injection Hm as <-. cbn [tn_view].
     assert (Hfl : In c a2).
     { eapply sublist_incl.
-      - exact (proj2 (collect_sub_flat frags (ls_impl S) (Datatypes.S n)) _ _ _ _ Hc _ _ Ha2).
+      - exact (proj2 (collect_sub_flat frags cond (Datatypes.S n)) _ _ _ _ Hc _ _ Ha2).
       - unfold resolvable in Hcin. apply filter_In in Hcin. tauto. }
     destruct (viewsm_in _ _ _ _ Ha3 Hfl) as (s & Hs & Hin).
     match goal with
@@ -886,20 +887,20 @@ Section ModelTree.
   Qed.
 End ModelTree.
 
-Theorem model_roots_listed S vars vdefs frags n root sels orc ts :
-  model_roots S vars vdefs frags n root sels orc = Ok ts -> Forall tree_listed ts.
+Theorem model_roots_listed S vars vdefs frags cond n root sels orc ts :
+  model_roots S vars vdefs frags cond n root sels orc = Ok ts -> Forall tree_listed ts.
 Proof.
   unfold model_roots. intros H. inv_bind H.
-  change (zipm S vars vdefs frags n root (resolvable a) orc = Ok ts) in H.
+  change (zipm S vars vdefs frags cond n root (resolvable a) orc = Ok ts) in H.
   apply Forall_forall. intros t Ht.
-  destruct (zipm_in _ _ _ _ _ _ _ _ _ _ H Ht) as (c & orc' & _ & Hm).
-  exact (model_tree_listed _ _ _ _ _ _ _ _ _ Hm).
+  destruct (zipm_in _ _ _ _ _ _ _ _ _ _ _ H Ht) as (c & orc' & _ & Hm).
+  exact (model_tree_listed _ _ _ _ _ _ _ _ _ _ Hm).
 Qed.
 
 (* ------------------------------------------- results do not depend on fuel ---- *)
 Section FuelIndep.
   Variable frags : list (name * fragment).
-  Variable impls : list (name * list name).
+  Variable cond : name -> name -> option name -> option name.
 
   Lemma flat_fuel_indep n :
     (forall s v, flat_sel frags n s = Ok v -> forall m v', flat_sel frags m s = Ok v' -> v = v') /\
@@ -923,10 +924,10 @@ Section FuelIndep.
   Qed.
 
   Lemma collect_fuel_indep n :
-    (forall st rt s v, collect_sel frags impls n st rt s = Ok v ->
-       forall m v', collect_sel frags impls m st rt s = Ok v' -> v = v') /\
-    (forall st rt l v, collect_list frags impls n st rt l = Ok v ->
-       forall m v', collect_list frags impls m st rt l = Ok v' -> v = v').
+    (forall st rt s v, collect_sel frags cond n st rt s = Ok v ->
+       forall m v', collect_sel frags cond m st rt s = Ok v' -> v = v') /\
+    (forall st rt l v, collect_list frags cond n st rt l = Ok v ->
+       forall m v', collect_list frags cond m st rt l = Ok v' -> v = v').
   Proof.
     induction n as [|n [IHs IHl]].
     - split; [discriminate|]. intros st rt [|x r] v H m v' H'; [|discriminate].
@@ -936,10 +937,8 @@ Section FuelIndep.
         destruct s as [al nm args dirs sub|nm dirs|cd dirs sub].
         * congruence.
         * destruct (assoc nm frags) as [fr|]; [|discriminate].
-          destruct (applies_concrete impls rt (Some (fr_cond fr))); [eapply IHl; eauto|].
-          destruct (applies_static st (Some (fr_cond fr))); [eapply IHl; eauto|congruence].
-        * destruct (applies_concrete impls rt cd); [eapply IHl; eauto|].
-          destruct (applies_static st cd); [eapply IHl; eauto|congruence].
+          destruct (cond st rt (Some (fr_cond fr))) as [st'|]; [eapply IHl; eauto|congruence].
+        * destruct (cond st rt cd) as [st'|]; [eapply IHl; eauto|congruence].
       + intros st rt [|x r] v H m v' H'.
         * rewrite collect_list_nil in H, H'. congruence.
         * destruct m as [|m]; [discriminate|]. rewrite collect_list_S in H, H'.
